@@ -52,6 +52,9 @@ def cases(tier, seed):
         out.append({"id": f"L2-seed{sd}-T4-n40-v2", "labels": 2, "sim_seed": sd, "T": 4, "n": 40, "nv": 2, "seed": seed})
         out.append({"id": f"L3-seed{sd}-T3-n5-v1", "labels": 3, "sim_seed": sd, "T": 3, "n": 5, "nv": 1, "seed": seed})
         out.append({"id": f"L3-seed{sd}-T2-n2-v2", "labels": 3, "sim_seed": sd, "T": 2, "n": 2, "nv": 2, "seed": seed})
+        # dependency order (g, _period): the period is NOT the leading axis of the transition array
+        out.append({"id": f"L2-gp-seed{sd}-T3-n5-v2", "labels": 2, "sim_seed": sd, "T": 3, "n": 5, "nv": 2, "seed": seed, "dep_order": "gp"})
+        out.append({"id": f"L2-gp-seed{sd}-T4-n2-v1", "labels": 2, "sim_seed": sd, "T": 4, "n": 2, "nv": 1, "seed": seed, "dep_order": "gp"})
     return out
 
 
@@ -59,16 +62,21 @@ def cost(case):
     return case["T"] * (3 if case["n"] == 40 else 1) * case["nv"]
 
 
-def build(T, n, nv, labels):
+def build(T, n, nv, labels, dep_order="pg"):
+    deps = "_period, g" if dep_order == "pg" else "g, _period"
+    return _build(T, n, nv, labels, deps)
+
+
+def _build(T, n, nv, labels, deps):
     L = [
         "def utility(h, g, d, a" + (", h2" if nv == 2 else "") + "):\n    return a * d * (h + 0.5) + 0.01 * g - 0.3 * d" + (" + 0.2 * h2 * (1 - d)" if nv == 2 else ""),
         "def next_g(g):\n    return g",
-        "@lcm.mark.stochastic\ndef next_h(_period, g):\n    pass",
+        f"@lcm.mark.stochastic\ndef next_h({deps}):\n    pass",
     ]
     funcs = ["utility", "next_g", "next_h"]
     states = [("h", f"D({labels})"), ("g", f"D({max(n, 2)})")]
     if nv == 2:
-        L.append("@lcm.mark.stochastic\ndef next_h2(_period, g):\n    pass")
+        L.append(f"@lcm.mark.stochastic\ndef next_h2({deps}):\n    pass")
         funcs.append("next_h2")
         states.append(("h2", f"D({labels})"))
     text = family.assemble(T, "\n\n".join(L), states, [("d", "D(2)")], funcs)
@@ -84,7 +92,8 @@ class Oracle:
 
         self.T, self.n, self.nv, self.labels = case["T"], case["n"], case["nv"], case["labels"]
         self.ng = max(self.n, 2)
-        self.model, self.text = build(self.T, self.n, self.nv, self.labels)
+        self.dep_order = case.get("dep_order", "pg")
+        self.model, self.text = build(self.T, self.n, self.nv, self.labels, self.dep_order)
         self.vars = ["h", "h2"][: self.nv]
         self.solve, _ = get_lcm_function(self.model, targets="solve", debug_mode=False)
         self.sim, _ = get_lcm_function(self.model, targets="simulate", debug_mode=False)
@@ -105,7 +114,7 @@ class Oracle:
             arr = np.full((self.T, self.ng, self.labels), 1.0 / self.labels)
             for i in range(self.n):
                 arr[:, self.g_of_agent[i], :] = rows[v][:, i, :]
-            p["shocks"][v] = jnp.asarray(arr)
+            p["shocks"][v] = jnp.asarray(arr if self.dep_order == "pg" else np.transpose(arr, (1, 0, 2)))
         return p
 
     def draw(self, rows, seed=None, return_frame=False):
@@ -255,7 +264,7 @@ def run_case(case):
 
         viols.append(violation("runs", "simulate", "EXC:" + type(e).__name__, str(e)[:300], traceback=traceback.format_exc()[-1200:]))
         return outcome(status="violation", violations=viols, digest="exc", transitions=o.calls)
-    cfg = f"L{o.labels}-T{o.T}-n{o.n}-v{o.nv}"
+    cfg = f"L{o.labels}-T{o.T}-n{o.n}-v{o.nv}-{o.dep_order}"
     return outcome(
         status="violation" if viols else "ok",
         violations=viols[:2],
